@@ -645,6 +645,50 @@ class Loopback:
             pass
 
 
+def osc_container_cases(ctx, rng):
+    """send(address, params): "exactly the arguments asked for" whatever sequence type holds them (a tuple as well as a list) and
+    however often the same list object is sent: a Pattern amongst the params yields its NEXT value for every message."""
+    import isobar as iso
+    lb = Loopback()
+    try:
+        for i in range(ctx.scale(120, 2500)):
+            addr = rng.choice(ADDRS)
+            n = rng.randint(1, 4)
+            plain = [rng.choice([rng.randint(0, 127), rng.randint(-2000, 20000), 0.5, 440.0, rng.choice(WORDS)]) for _ in range(n)]
+            form = rng.choice(["tuple", "tuple", "reused-list", "reused-list", "reused-list-no-pattern"])
+            sends = 1 if form == "tuple" else rng.randint(2, 4)
+            seqs = {}
+            if form == "reused-list":
+                for j in rng.sample(range(n), rng.randint(1, n)):
+                    seqs[j] = [rng.randint(0, 20000) for _ in range(sends)]
+            params = [iso.PSequence(list(seqs[j]), 1) if j in seqs else plain[j] for j in range(n)]
+            if form == "tuple":
+                params = tuple(params)
+            problem = None
+            for k in range(sends):
+                want_args = [seqs[j][k] if j in seqs else plain[j] for j in range(n)]
+                dgrams, exc = lb.call(lambda: lb.dev.send(addr, params))
+                if exc or len(dgrams) != 1:
+                    problem = ("send:raised-%s" % exc if exc else "send:%d-datagrams" % len(dgrams),
+                               "send #%d of %s params %r did not produce one datagram: %s" % (k + 1, form, want_args, exc or len(dgrams)))
+                    break
+                got = osc_parse(dgrams[0])
+                want = (addr.encode("utf-8"), [osc_expected_arg(a) for a in want_args])
+                if got is None or got[0] != want[0] or got[1] != want[1]:
+                    problem = ("send:wrong-payload", "send #%d with the %s %r carries %s, requested %s" % (k + 1, form, want_args, got, want))
+                    break
+            ctx.case(("osc-container", form, addr, repr(plain), repr(seqs), sends), nontrivial=True, validated=False,
+                     sample=sample_once("osc-container", {"suite": "osc-container", "form": form, "address": addr, "params": plain,
+                                                          "pattern_params": {str(j): v for j, v in seqs.items()}}, True))
+            ctx.count("osc:params-as:" + form)
+            if problem:
+                ctx.violation("C19:osc:" + problem[0], problem[1],
+                              {"suite": "osc-container", "form": form, "address": addr, "params": plain,
+                               "pattern_params": {str(j): v for j, v in seqs.items()}, "sends": sends, "first_failing_clause": problem[0]})
+    finally:
+        lb.close()
+
+
 def osc_tok(v) -> str:
     if v is True:
         return "T"
@@ -1237,6 +1281,7 @@ def run(ctx):
                     ["send", "/freq".encode().hex(), osc_tok(440.0)], ["send", "/x".encode().hex(), "none"],
                     ["send", "/x".encode().hex()]]
               + [gen_osc_case(rng) for _ in range(ctx.scale(1500, 12000))])
+    osc_container_cases(ctx, rng)
     # mpe
     check_mpe(ctx, fixed_mpe_cases() + [gen_mpe_case(rng) for _ in range(ctx.scale(250, 10000))])
     ctx.extra["exhaustive"] = False
